@@ -76,14 +76,16 @@ XOf(c) == c % N
 \* a is directly west of / south of b and no line lies between them
 Linked(o, a, b) == \/ (b = a + 1 /\ XOf(a) < N - 1 /\ ~West(o, b))
                    \/ (b = a + N /\ b < N * N /\ ~South(o, b))
-\* pairs of neighbouring cells with no line between them
-Adj(o) == TLCEval({ab \in Cells \X Cells : Linked(o, ab[1], ab[2]) \/ Linked(o, ab[2], ab[1])})
-RECURSIVE Grow(_, _)
-Grow(adj, S) == LET T == S \cup {ab[2] : ab \in {e \in adj : e[1] \in S}} IN IF T = S THEN S ELSE Grow(adj, T)
 MinOf(S) == CHOOSE m \in S : \A n \in S : m <= n
 MaxOf(S) == CHOOSE m \in S : \A n \in S : m >= n
+\* the neighbours of each cell with no line in between
+Nbrs(o) == TLCEval([c \in Cells |-> {b \in Cells : Linked(o, c, b) \/ Linked(o, b, c)}])
+\* every cell keeps taking over the smallest label among itself and its neighbours until nothing changes
+RECURSIVE Settle(_, _)
+Settle(nb, lab) == LET nxt == TLCEval([c \in Cells |-> MinOf({lab[c]} \cup {lab[b] : b \in nb[c]})])
+                   IN IF nxt = lab THEN lab ELSE Settle(nb, nxt)
 \* the first cell (in wire order) of the parcel each cell lies in: the smallest cell one can walk to without crossing a line
-RepOf(o) == LET adj == Adj(o) IN TLCEval([c \in Cells |-> MinOf(Grow(adj, {c}))])
+RepOf(o) == Settle(Nbrs(o), [c \in Cells |-> c])
 \* parcels are numbered from 1 in the order in which their first cell appears on the wire
 IdxOf(o) == LET rep == RepOf(o)
                 reps == {rep[c] : c \in Cells}
@@ -180,7 +182,7 @@ Chunk(i, d) ==
             /\ pend' = p2
             /\ out' = [ev |-> "chunk", i |-> i, done |-> FALSE, reqs |-> <<>>]
             /\ UNCHANGED <<ov, idx, parcels, dirty, downloaded, nextSeq, calls, outst>>
-       ELSE LET new == Cat(p2, 1)
+       ELSE LET new == TLCEval(Cat(p2, 1))
                 \* P1: the pinned tree compares the new bytes with a 2-dimensional view of the old ones, which is
                 \* never equal: every complete overlay counts as a change
                 changed == new # ov \/ "P1" \in Bugs
